@@ -177,6 +177,10 @@ func (mc *Metacontroller) reconcileCompositeController(cc *v1alpha1.CompositeCon
 		delete(mc.parentControllers, cc.Name)
 	}
 
+	var revisionsSynced cache.InformerSynced
+	if mc.revisionInformer != nil {
+		revisionsSynced = mc.revisionInformer.HasSynced
+	}
 	pc, err := newParentController(
 		mc.resources,
 		mc.dynClient,
@@ -184,6 +188,7 @@ func (mc *Metacontroller) reconcileCompositeController(cc *v1alpha1.CompositeCon
 		mc.eventRecorder,
 		mc.mcClient,
 		mc.revisionLister,
+		revisionsSynced,
 		cc,
 		mc.numWorkers,
 		mc.ssaOptions,
